@@ -66,6 +66,17 @@ size_t cqv_needed;     /* flush_block: the encoder's packed_bytes_needed */
   && (d)->values_in_mini_block >= 0 && (d)->values_in_mini_block <= 32 \
   && (d)->mini_block_pos >= 0 && (d)->mini_block_pos <= 32 && (d)->values_decoded >= 0)
 
+/* job-selectable parts of the flush_block postcondition (one concern per job keeps each query small) */
+#ifdef CQV_FLUSH_ACCOUNT
+#define DELTA_FLUSH_ACCOUNT(x) (x)
+#else
+#define DELTA_FLUSH_ACCOUNT(x) 1
+#endif
+#ifdef CQV_FLUSH_FIT
+#define DELTA_FLUSH_FIT(x) (x)
+#else
+#define DELTA_FLUSH_FIT(x) 1
+#endif
 /* C12, size of the mini-block payload of one block: sum over the 4 mini-blocks of 32*w/8 = 4*w bytes (every w <= 64).
  * Compiled in only for the job that checks the byte layout against the specification. */
 #ifdef CQV_SPEC_SIZE
